@@ -33,7 +33,16 @@ pub struct OrderMsg {
 #[derive(Clone, Debug, Serialize, Deserialize)]
 pub enum Case {
     Perm { t: TraceCase, table: TableKind, win: u8, min_delay: u64 },
-    Order { lcs: Vec<(u8, u64)>, msgs: Vec<OrderMsg>, win: u8, min_delay: u64 },
+    Order {
+        lcs: Vec<(u8, u64)>,
+        msgs: Vec<OrderMsg>,
+        win: u8,
+        min_delay: u64,
+        /// lifecycles (by position in `lcs`) that are resume lifecycles whose start time was adjusted to
+        /// before the start of the lifecycle they resumed (the displayed start differs from the start then)
+        #[serde(default)]
+        resumed: Vec<usize>,
+    },
 }
 
 fn gen_order(rng: &mut Rng, tier: Tier) -> Case {
@@ -100,7 +109,8 @@ fn gen_order(rng: &mut Rng, tier: Tier) -> Case {
         }
         msgs.push(OrderMsg { lc: li, rx_us: rx, ts: ts as u32, ctrl_req: false });
     }
-    Case::Order { lcs, msgs, win, min_delay }
+    let resumed: Vec<usize> = (0..lcs.len()).filter(|_| rng.chance(1, 5)).collect();
+    Case::Order { lcs, msgs, win, min_delay, resumed }
 }
 
 fn new_table() -> (adlt::lifecycle::LcsRType, evmap::WriteHandle<LifecycleId, Lifecycle, (), NoHash>) {
@@ -240,7 +250,7 @@ impl Check for C10 {
                 ctx.nontrivial = staged.len() > 1;
                 Ok(())
             }
-            Case::Order { lcs, msgs, win, min_delay } => {
+            Case::Order { lcs, msgs, win, min_delay, resumed } => {
                 if *win == 0 || lcs.is_empty() {
                     return Ok(());
                 }
@@ -269,15 +279,31 @@ impl Check for C10 {
                 let res = sh::slot((Vec::<(u32, u64)>::new(), Vec::<u32>::new(), false));
                 let res2 = res.clone();
                 let lcs = lcs.clone();
+                let resumed = resumed.clone();
+                let built = std::sync::Arc::new(std::sync::atomic::AtomicU64::new(0));
+                let built2 = built.clone();
                 let msgs2 = msgs.clone();
                 let (win, min_delay) = (*win, *min_delay);
                 crate::lc::align_lc_ids();
                 sh::run(&SchedCfg::simple(), ctx, move || {
                     let (lcs_r, mut lcs_w) = new_table();
                     let mut ids = vec![];
-                    for (e, start) in lcs.iter() {
+                    for (li, (e, start)) in lcs.iter().enumerate() {
                         let mut dummy = TMsg { ecu: *e, boot: 0, rx_us: *start, ts: 0, has_ts: true, kind: K_LOG, app: 0, mcnt: 0, n: 0, flags: 0 }.to_dlt(0);
                         let mut lc = Lifecycle::new(&mut dummy);
+                        if resumed.contains(&li) {
+                            // a resume lifecycle as the lifecycle detection makes it: a message 20 s after the last one of a
+                            // lifecycle that started 5 s after `start`; its own start is adjusted to `start` afterwards
+                            let mut first = TMsg { ecu: *e, boot: 0, rx_us: start.saturating_add(5_000_000), ts: 0, has_ts: true, kind: K_LOG, app: 0, mcnt: 0, n: 0, flags: 0 }.to_dlt(0);
+                            let mut prev = Lifecycle::new(&mut first);
+                            let mut second = TMsg { ecu: *e, boot: 0, rx_us: start.saturating_add(25_000_000), ts: 0, has_ts: true, kind: K_LOG, app: 0, mcnt: 0, n: 0, flags: 0 }.to_dlt(1);
+                            if let Some(l) = prev.update(&mut second, 60_000_000) {
+                                if l.is_resume() {
+                                    lc = l;
+                                    built2.fetch_add(1, std::sync::atomic::Ordering::Relaxed);
+                                }
+                            }
+                        }
                         lc.start_time = *start;
                         ids.push(lc.id());
                         lcs_w.insert(lc.id(), lc);
@@ -310,6 +336,7 @@ impl Check for C10 {
                     drop(lcs_w);
                 })?;
                 let (expect, got, ok) = res.lock().unwrap().clone();
+                ctx.probe_n("resume_lifecycles_starting_before_the_resumed_one", built.load(std::sync::atomic::Ordering::Relaxed));
                 if !ok {
                     viol!("sort-error", "buffer_sort_messages returned an error");
                 }
@@ -343,12 +370,15 @@ impl Check for C10 {
                     out.push(Case::Perm { t: t.clone(), table: TableKind::Real, win: *win, min_delay: *min_delay });
                 }
             }
-            Case::Order { lcs, msgs, win, min_delay } => {
+            Case::Order { lcs, msgs, win, min_delay, resumed } => {
                 for m in shrink_vec(msgs) {
-                    out.push(Case::Order { lcs: lcs.clone(), msgs: m, win: *win, min_delay: *min_delay });
+                    out.push(Case::Order { lcs: lcs.clone(), msgs: m, win: *win, min_delay: *min_delay, resumed: resumed.clone() });
                 }
                 if *win != 3 {
-                    out.push(Case::Order { lcs: lcs.clone(), msgs: msgs.clone(), win: 3, min_delay: *min_delay });
+                    out.push(Case::Order { lcs: lcs.clone(), msgs: msgs.clone(), win: 3, min_delay: *min_delay, resumed: resumed.clone() });
+                }
+                for r in shrink_vec(resumed) {
+                    out.push(Case::Order { lcs: lcs.clone(), msgs: msgs.clone(), win: *win, min_delay: *min_delay, resumed: r });
                 }
             }
         }
